@@ -316,6 +316,17 @@ class Rewriter:
         self.hit('W9', n)
         return text
 
+    # ---- W6: name the ghost iterator of a `for` loop so that invariants can refer to it ----------
+    def w6(self, text):
+        m = mask(text)
+        n = 0
+        for mm in reversed(list(re.finditer(r'\bfor\s+([^;{}]*?)\s+in\s+(?!iter__)', m))):
+            # keep pattern text verbatim; insert the ghost name after `in`
+            text = text[:mm.end()] + 'iter__: ' + text[mm.end():]
+            n += 1
+        self.hit('W6', n)
+        return text
+
     # ---- W10: generic ack::<R> -> monomorphic name ------------------------------
     def w10(self, text):
         t, k = re.subn(r'\bSelf::ack::<\s*(\w+)\s*>\s*\(', r'Self::ack_\1(', text)
